@@ -430,6 +430,16 @@ Lemma num_not_transitive_witness :
   /\ flag_cmp dinfer natsort_less Fnf (B "9007199254740992") (B "9007199254740993") <> 0.
 Proof. vm_compute. repeat split; try reflexivity. discriminate. Qed.
 
+Lemma nat_cycle_witness :
+  flag_cmp dinfer natsort_less Ft (B "9") (B "10") < 0 /\ flag_cmp dinfer natsort_less Ft (B "10") (B "100000000000000000000") < 0
+  /\ flag_cmp dinfer natsort_less Ft (B "100000000000000000000") (B "9") < 0.
+Proof. vm_compute. repeat split; reflexivity. Qed.
+Lemma nat_chain_witness :
+  less dinfer natsort_less [Ft; Ff] [B "01"; B "z"] [B "1"; B "y"] = false /\ less dinfer natsort_less [Ft; Ff] [B "1"; B "y"] [B "01"; B "z"] = false
+  /\ less dinfer natsort_less [Ft; Ff] [B "01"; B "z"] [B "1"; B "z"] = false /\ less dinfer natsort_less [Ft; Ff] [B "1"; B "z"] [B "01"; B "z"] = false
+  /\ less dinfer natsort_less [Ft; Ff] [B "1"; B "y"] [B "1"; B "z"] = true.
+Proof. vm_compute. repeat split; reflexivity. Qed.
+
 Inductive keys_ascending : record -> Prop :=
 | ka_nil : keys_ascending []
 | ka_one f : keys_ascending [f]
